@@ -70,6 +70,7 @@ type Exec struct {
 	snap      map[string]*Loc // snapshot backing arrays of embedded arrays -> where they live
 	guardsSeen map[string]bool
 	idxConst   map[string]string // named loop-index terms (quantifier instances)
+	closuresSeen map[string]bool
 	resTypes   map[string]types.Type
 	onlyProps  []string
 }
@@ -424,7 +425,7 @@ func (fr *Frame) oblige(kind, detail, cond string, clause string) {
 		}
 		return
 	}
-	if c := x.w.contracts[x.fnKey]; c != nil && c.Lenient && kind != "guard" && kind != "inv-init" && kind != "inv-pres" && kind != "post" {
+	if c := x.w.contracts[x.fnKey]; c != nil && c.Lenient && kind != "guard" && kind != "inv-init" && kind != "inv-pres" && kind != "post" && kind != "closure-pre" {
 		// lenient contracts claim their call-site guards and checks only (and prove the loop
 		// invariants those rest on, and any ensures clause, which callers rely on); safety
 		// conditions, frames and callee preconditions are assumed
@@ -814,6 +815,10 @@ func (fr *Frame) bitop(op token.Token, a, b string, rt types.Type) string {
 		}
 	} else {
 		x.assumeRange(r, rt)
+		if op == token.AND {
+			// on non-negative operands & behaves as on unsigned values
+			x.em.Assert(sImp(sAnd(sLe("0", a), sLe("0", b)), sAnd(sLe("0", r), sLe(r, a), sLe(r, b))))
+		}
 	}
 	return r
 }
